@@ -591,7 +591,7 @@ def witness_closure(ctx, name):
 
 # ============================================================================ operand monitor
 
-def reach(obj, path, out, seen, depth=0):
+def reach(obj, path, out, seen, depth=0, dicts=None):
     """every ndarray reachable from obj (by identity), with a path name"""
     import scipy.sparse as sp
     if obj is None or depth > 7 or id(obj) in seen:
@@ -605,30 +605,32 @@ def reach(obj, path, out, seen, depth=0):
         if isinstance(ori, np.ndarray):
             out.append((path + '.ori', ori))
         if obj.base is not None and isinstance(obj.base, np.ndarray):
-            reach(obj.base, path + '.base', out, seen, depth + 1)
+            reach(obj.base, path + '.base', out, seen, depth + 1, dicts)
         return
     if sp.issparse(obj):
         for a in ('data', 'indices', 'indptr', 'row', 'col'):
             if hasattr(obj, a):
-                reach(getattr(obj, a), f'{path}.{a}', out, seen, depth + 1)
+                reach(getattr(obj, a), f'{path}.{a}', out, seen, depth + 1, dicts)
         return
     if isinstance(obj, dict):
+        if dicts is not None and obj and all(isinstance(k, str) for k in obj):
+            dicts.append((path, obj))          # tag dictionaries / keyword dictionaries: their key sets are operand state too
         for k, v in obj.items():
-            reach(v, f'{path}[{k!r}]', out, seen, depth + 1)
+            reach(v, f'{path}[{k!r}]', out, seen, depth + 1, dicts)
         return
     if isinstance(obj, (list, tuple)):
         for k, v in enumerate(obj):
-            reach(v, f'{path}[{k}]', out, seen, depth + 1)
+            reach(v, f'{path}[{k}]', out, seen, depth + 1, dicts)
         return
     mod = type(obj).__module__ or ''
     if mod.startswith('skfem') and hasattr(obj, '__dict__'):
         for k, v in vars(obj).items():
-            reach(v, f'{path}.{k}', out, seen, depth + 1)
+            reach(v, f'{path}.{k}', out, seen, depth + 1, dicts)
         return
     if callable(obj) and getattr(obj, '__closure__', None):
         for k, c in enumerate(obj.__closure__):
             try:
-                reach(c.cell_contents, f'{path}.<closure {k}>', out, seen, depth + 1)
+                reach(c.cell_contents, f'{path}.<closure {k}>', out, seen, depth + 1, dicts)
             except ValueError:
                 pass
 
@@ -638,19 +640,42 @@ def _digest(a):
         + str(a.shape) + a.dtype.str
 
 
+def _dict_state(d):
+    """names and per-name content of a tag / keyword dictionary: sorted keys, identity of each mapped object, checksum of arrays
+    (with the orientation of an OrientedBoundary)"""
+    out = []
+    for k in sorted(d):
+        v = d[k]
+        if isinstance(v, np.ndarray):
+            ori = getattr(v, 'ori', None)
+            out.append((k, id(v), _digest(np.asarray(v)), None if ori is None else _digest(np.asarray(ori))))
+        else:
+            out.append((k, id(v), None, None))
+    return tuple(out)
+
+
 class Monitor:
     def __init__(self):
         self.items = []
+        self.dicts = []
 
     def watch(self, obj, label):
-        out = []
-        reach(obj, label, out, set())
+        out, dicts = [], []
+        reach(obj, label, out, set(), 0, dicts)
         for path, a in out:
             self.items.append((path, a, _digest(a)))
+        for path, d in dicts:
+            self.dicts.append((path, d, _dict_state(d)))
         return obj
 
     def changed(self):
-        return [path for path, a, d in self.items if _digest(a) != d]
+        ch = [path for path, a, d in self.items if _digest(a) != d]
+        for path, d, st in self.dicts:
+            now = _dict_state(d)
+            if now != st:
+                old_keys, new_keys = [x[0] for x in st], [x[0] for x in now]
+                ch.append(f'{path}: names {old_keys} -> {new_keys}' if old_keys != new_keys else f'{path}: entries re-bound or changed')
+        return ch
 
 
 # ============================================================================ the object pool and its operations
@@ -715,6 +740,15 @@ class Pool:
                 m = getattr(cls, s['ctor'])(*[np.array(a) for a in s['args']])
             self.objs[('m', name)] = m
         return self.objs[('m', name)]
+
+    def tagged(self, name):
+        """a long-lived mesh that already carries named boundaries and subdomains"""
+        if ('mt', name) not in self.objs:
+            m = self.mesh(name)
+            lo, mid = float(m.p[0].min()), float(m.p[0].mean())
+            self.objs[('mt', name)] = m.with_boundaries({'low': lambda x: x[0] == lo, 'gamma': lambda x: x[0] < mid}) \
+                .with_subdomains({'a': lambda x: x[0] < mid})
+        return self.objs[('mt', name)]
 
     def elem(self, name):
         """ONE element object per name, shared by all meshes of the pool"""
@@ -945,6 +979,24 @@ def do_op(pool, d, mon):
         i = d['i'] % len(e.doflocs)
         r = e.lbasis(X, i)
         return canon([np.array(a) for a in r])
+    if k == 'retag':
+        # tagging a mesh that ALREADY carries tags: same names (redefinition in the NEW mesh only) and new names
+        mt = mon.watch(pool.tagged(d['mesh']), 'tagged_mesh')
+        hi = float(mt.p[0].max())
+        if d['how'] == 'boundaries-same':
+            r = mt.with_boundaries({'gamma': lambda x: x[0] > -1e9})
+        elif d['how'] == 'boundaries-new':
+            r = mt.with_boundaries({'high': lambda x: x[0] == hi})
+        elif d['how'] == 'subdomains-same':
+            r = mt.with_subdomains({'a': lambda x: x[0] > -1e9})
+        elif d['how'] == 'subdomains-new':
+            r = mt.with_subdomains({'b': lambda x: x[0] > -1e9})
+        elif d['how'] == 'refined':
+            r = mt.refined() if d['mesh'] not in ('tet', 'hex') else mt.scaled(2.0)
+        else:
+            raise KeyError(d['how'])
+        # the operand itself is part of the result: it must still be what a freshly tagged mesh is
+        return canon([r, mt, {nm: int(len(v)) for nm, v in (mt.boundaries or {}).items()}])
     if k == 'transform':
         m = mon.watch(pool.mesh(d['mesh']), 'mesh')
         how = d['how']
@@ -1086,7 +1138,7 @@ def random_op(rng, sub=None):
     if not glob and not ename.startswith('ElementVector'):
         kinds += ['lbasis', 'lbasis']
     if fam not in ('tri2', 'quad2', 'tet2', 'hex2'):
-        kinds += ['transform', 'transform', 'io']
+        kinds += ['transform', 'transform', 'io', 'retag', 'retag']
     if ename in SCALAR_H1 and len([e for e in elems if e in SCALAR_H1]) >= 2:
         kinds += ['composite']
     if ename in SCALAR_H1:
@@ -1116,6 +1168,9 @@ def random_op(rng, sub=None):
         if fam in ('tri', 'tet', 'line'):
             hows += ['adaptive', 'smoothed'] if fam != 'line' else ['adaptive']
         return {'op': 'transform', 'mesh': mname, 'how': rng.choice(hows)}
+    if k == 'retag':
+        return {'op': 'retag', 'mesh': mname,
+                'how': rng.choice(['boundaries-same', 'boundaries-new', 'subdomains-same', 'subdomains-new', 'refined'])}
     if k == 'io':
         hows = ['dict', 'json', 'npz', 'msh', 'vtk'] if fam != 'line' else ['dict', 'json', 'npz']
         return {'op': 'io', 'mesh': mname, 'how': rng.choice(hows)}
@@ -1411,6 +1466,17 @@ def search(ctx):
                      f'{name}: keyword arguments of an earlier call reach the backend of a later call', dict(w, site='closure'))
     # ---------------- constructors: caller-owned arrays and long-lived source meshes
     search_constructors(ctx)
+    # ---------------- tagging meshes that already carry tags (every family, same and new names): operand and its tag
+    # dictionaries unchanged, result equal to a fresh pool's
+    for mname in ('tri', 'quad', 'tet', 'hex', 'line', 'tri2'):
+        for how in ('boundaries-same', 'boundaries-new', 'subdomains-same', 'subdomains-new', 'refined'):
+            ops = [{'op': 'retag', 'mesh': mname, 'how': how}, {'op': 'retag', 'mesh': mname, 'how': 'refined'}]
+            problems, _ = run_history(ops)
+            ctx.count(('retag', mname, how), nontrivial=True)
+            for k, kind, detail in problems:
+                key = classify(ops[:k + 1], kind)
+                ctx.fail(key, f'tagging an already tagged {MESH_SPECS[mname]["cls"]} again ({ops[k]["how"]}): {kind}: {detail}',
+                         {'site': 'history', 'ops': ops[:k + 1], 'changed': detail if kind == 'mutated' else None, 'kind': kind})
     # ---------------- (b)+(c) random histories over a shared pool
     nhist = ctx.n(70, 700)
     worst, nops, nprob = 0.0, 0, 0
